@@ -378,7 +378,8 @@ def run(rec, args):
         if rng.uniform() < 0.15:
             za = 0.1
         return dict(cosmo=gen_cosmo(rng, allow_interp), h0_factor=float(rng.choice([rng.uniform(0.3, 3.), 0.5, 10.])), za=za, zb=zb,
-                    m=float(rng.uniform(15, 26)), data_seed=int(rng.integers(0, 2 ** 31)))
+                    m=(float(rng.uniform(15, 26)) if rng.random() < 0.8 else float(rng.choice([0.0, 0.0, -0.7, 1.0]))),   # relative magnitudes incl. exactly 0
+                    data_seed=int(rng.integers(0, 2 ** 31)))
     # --- SNe -------------------------------------------------------------------------------------------
     for r in range(120 if quick else 800):
         inp = dict(check="sne", sample="CUSTOM", n=int(rng.choice([1, 2, 3, 5, 8, 12, 30])), **common_fields())
